@@ -17,8 +17,8 @@ M = [
  ("C05-send-buffer-off-by-one", "bromelia/transport.py", "                self._send_buffer = self._send_buffer[sent:]", "                self._send_buffer = self._send_buffer[sent + (1 if sent == 7 else 0):]", ["C05"], 2),
  ("C05-oversized-reput", "bromelia/setup.py", "            if MESSAGE_LENGTH > SEND_BUFFER_MAXIMUM_SIZE - len(stream):\n                self._send_messages.put(msg)\n                break", "            if MESSAGE_LENGTH > SEND_BUFFER_MAXIMUM_SIZE - len(stream):\n                break", ["C05"]),
  ("C05-no-lock-on-submit", "bromelia/setup.py", "    def put_message_into_send_queue(self, msg: Type[DiameterMessage]) -> None:\n        self.lock.acquire()\n", "    def put_message_into_send_queue(self, msg: Type[DiameterMessage]) -> None:\n        self.lock.acquire()\n        self.lock.release()\n        self.lock.acquire()\n", ["C05"]),
- ("C05-sctp-send-buffer-off-by-one", "bromelia/transport.py", "                sent = self.sock.sctp_send(self._send_buffer)", "                sent = self.sock.sctp_send(self._send_buffer[:-1] if len(self._send_buffer) == 13 else self._send_buffer)", ["C05"]),
- ("C04-sctp-read-drops-first-byte", "bromelia/transport.py", "            fromaddr, flags, data, notif = self.sock.sctp_recv(4096*64)", "            fromaddr, flags, data, notif = self.sock.sctp_recv(4096*64)\n            data = data[1:] if len(data) == 21 else data", ["C04"]),
+ ("C05-sctp-partial-send-ignored", "bromelia/transport.py", "                sent = self.sock.sctp_send(self._send_buffer)\n", "                sent = self.sock.sctp_send(self._send_buffer)\n                sent = len(self._send_buffer) if sent > 40 else sent\n", ["C05"]),
+ ("C04-sctp-read-drops-short-chunks", "bromelia/transport.py", "            fromaddr, flags, data, notif = self.sock.sctp_recv(4096*64)\n", "            fromaddr, flags, data, notif = self.sock.sctp_recv(4096*64)\n            data = data if len(data) != 7 else data[:-1] + b\"\\x00\"\n", ["C04"]),
  ("C06-cea-origin-not-checked", "bromelia/process.py", "            if ProcessDiameterMessage.is_valid_result_code_avp(avp):\n                self.checklist_mandatory_avps += 1\n\n            if ProcessDiameterMessage.is_valid_origin_host_avp(avp, self.connection):\n                self.checklist_mandatory_avps += 1\n\n            elif ProcessDiameterMessage.is_valid_origin_realm_avp(avp, self.connection):\n                self.checklist_mandatory_avps += 1\n\n            elif ProcessDiameterMessage.is_valid_host_ip_address_avp", "            if ProcessDiameterMessage.is_valid_result_code_avp(avp):\n                self.checklist_mandatory_avps += 1\n\n            if avp.code == ORIGIN_HOST_AVP_CODE:\n                self.checklist_mandatory_avps += 1\n\n            elif avp.code == ORIGIN_REALM_AVP_CODE:\n                self.checklist_mandatory_avps += 1\n\n            elif ProcessDiameterMessage.is_valid_host_ip_address_avp", ["C06"]),
  ("C06-deliver-in-closing", "bromelia/statemachine.py", "            if has_recv_dpa(self.msg):\n                self.event_rcv_dpa()\n", "            if has_recv_dpa(self.msg):\n                self.event_rcv_dpa()\n            elif not has_recv_dwr(self.msg) and not has_recv_dwa(self.msg):\n                self.notify_postprocess_message(self.msg)\n", ["C06"]),
  ("C06-no-watchdog", "bromelia/setup.py", "            if (not self.transport.events) and (self.transport.tracking_events_count >= self.watchdog_timeout):", "            if (not self.transport.events) and (self.transport.tracking_events_count >= self.watchdog_timeout * 1000):", ["C06"]),
